@@ -173,6 +173,13 @@ def run(F, R, tier):
     roots = [n for n in pt["_nodes"] if n.get("k") == "MethodCall" and n["name"] == "extend" and mentions_field(n, "roots", "graph::ModuleGraph")]
     R.ob("C17-b", "the walk starts from the graph's roots", len(roots) == 1, "roots not seeded", pt["file"])
 
+    # the walk covers everything reachable: the worklist loop never stops early
+    wl = [n for n in pt["_nodes"] if n["k"] == "While" and any(x.get("k") == "MethodCall" and (x.get("fn") or "").endswith("SeenPendingCollection::next_pending") for x in walk(n["cond"]))]
+    if R.ob("C17-b", "worklist loop found", len(wl) == 1, "prune_types no longer drains seen_pending with a while-let loop", pt["file"]):
+        early = [x for x in walk(wl[0]["body"]) if x.get("k") in ("Break", "Ret") and not [a for a in k_ancestors(x) if a.get("k") in ("For", "While", "Loop", "Closure") and is_within(a, wl[0]["body"])]]
+        R.ob("C17-b", "the worklist is drained completely", not early,
+             "the worklist loop of prune_types can stop early (`%s`): specifiers still queued are never marked seen, and the retain step then deletes modules that code still reaches" % (expr_text(early[0])[:20] if early else ""), where(early[0]) if early else "")
+
     # ---------------- C17-c ------------------------------------------------
     c01.is_dynamic_writes(F, R, tag="C17-c")
     c01.type_writes_gated(F, R, tag="C17-c")
